@@ -38,6 +38,14 @@ HISTORY = {
     'R5-X': 'fifth round (area: Accept after verification). First trial: MISSED → hs-accept cases through a ResponseWriter that cannot be hijacked (valid request => 501, never 101)',
     'R5-Y': 'fifth round (area: SetReadLimit bookkeeping); caught at the first trial (default-limit boundary 32768 / 32769)',
     'R5-Z': 'fifth round (area: error-triggered closes); caught at the first trial',
+    'R6-A': 'sixth round (area: sliding-window and flate-writer pools). First trial: MISSED (no history made the LAST frame of a compressed message fail) → pools op `wfail` (the transport refuses the write of the final frame, the connection goes away inside Write); the replay then reports the second Put (`put-by-non-holder`)',
+    'R6-B': 'sixth round (area: netconn deadlines and return values); caught at the first trial (`afterreset` of the idle-deadline kinds)',
+    'R6-C': 'sixth round (area: authenticateOrigin / match); caught at the first trial (origin x pattern grid: suffix look-alikes of `*.domain`)',
+    'R6-D': 'sixth round (area: permessage-deflate parameters); caught at the first trial (two server handshakes with different offers in one process)',
+    'R6-E': 'sixth round (area: msgReader.read bookkeeping); caught at the first trial (cut sweep inside the final frame)',
+    'R6-F': 'sixth round (area: msgWriter / writeFrameHeader); caught at the first trial (streamed message whose first chunk is below the threshold)',
+    'R6-G': 'sixth round (area: readFrameHeader / readLoop checks); caught at the first trial (RSV2 / RSV3 with negotiated compression)',
+    'R6-H': 'sixth round (area: mask.go); caught at the first trial (length x alignment grid of the mask suite)',
     'R2-C19': 'second round. Caught at the first trial, but only by chance (two wsjson cases of the same run happened to share the doubly pooled buffer): the final regression over all seeded changes missed it once → wsjson kind `overlap` (a rejected document, then two overlapping reads on other connections under GOMAXPROCS(1)) makes it deterministic',
     'R2-C04': 'second round, first trial: MISSED (the sweep of cut offsets used only 7-bit frame lengths) → header-region cut sweep over every length encoding and order (16-bit first on a fresh connection, after a 64-bit one, after a multiple of 256), both roles, both endings',
     'R2-C07': 'second round, first trial: MISSED (the suite always read a message to its end before the next one) → histories that start the next message after reading only a prefix of a small compressed one (`msgnf` / `plainnf`); the replay then reports `put-by-non-holder`',
@@ -51,7 +59,7 @@ HISTORY = {
 }
 print('| seeded change (property it breaks) | what it does | what it needs to show | confirmed | checks run on it → result (current machinery) | history |')
 print('|---|---|---|---|---|---|')
-for d in sorted(glob.glob(os.path.join(ROOT, 'seeded', 'C*'))) + sorted(glob.glob(os.path.join(ROOT, 'seeded', 'R2-C*'))) + sorted(glob.glob(os.path.join(ROOT, 'seeded', 'R3-*'))) + sorted(glob.glob(os.path.join(ROOT, 'seeded', 'R4-*'))) + sorted(glob.glob(os.path.join(ROOT, 'seeded', 'R5-*'))):
+for d in sorted(glob.glob(os.path.join(ROOT, 'seeded', 'C*'))) + sorted(glob.glob(os.path.join(ROOT, 'seeded', 'R2-C*'))) + sorted(glob.glob(os.path.join(ROOT, 'seeded', 'R3-*'))) + sorted(glob.glob(os.path.join(ROOT, 'seeded', 'R4-*'))) + sorted(glob.glob(os.path.join(ROOT, 'seeded', 'R5-*'))) + sorted(glob.glob(os.path.join(ROOT, 'seeded', 'R6-*'))):
     sid = os.path.basename(d)
     try:
         meta = json.load(open(os.path.join(d, 'meta.json')))
